@@ -34,9 +34,14 @@ def realise(d):
         # (lag products that cancel *exactly*: reflection coefficients equal to 0.0 at inner stages)
         x = x.copy()
         x[np.arange(len(x)) % L != 0] = 0
+    a = d.get("anchor")
+    if a:
+        # levels relative to a reference sample (dB re peak, offsets from the first reading): that sample is exactly 0.0
+        x = x - {"max0": x.max(), "min0": x.min(), "first0": x[0], "last0": x[-1]}[a]
     return x if g == 1.0 else x * g
 
 
+anchors = st.sampled_from(["max0", "min0", "first0", "last0"])
 gains = st.sampled_from([1.0, 1.0, 1.0, 1e-9, 1e6, 1e-4, 2000.0])
 
 
